@@ -191,12 +191,21 @@ pub fn to_tokens(e: &E, dec: &str, thou: &str, out: &mut Vec<Tok>) {
                 (Some(_), false) => true,
                 _ => false,
             };
-            // juxtaposition: only between two bare literals, the right one unsigned
+            // juxtaposition: the left side ends in a literal or a closing parenthesis, the right side starts with an
+            // unsigned literal or an opening parenthesis (`2 3`, `2 (3) 4`, `(1 + 2) 3`, `(2)(3)`)
             let mut omit = false;
-            if *juxt && *op == Op::Add && !rp {
-                let left_is_lit = matches!(out.last(), Some(Tok::Lit(..)));
-                let right_first_lit = first_token_is_unsigned_lit(r);
-                omit = left_is_lit && right_first_lit;
+            if *juxt && *op == Op::Add {
+                let left_ends_operand = matches!(out.last(), Some(Tok::Lit(..)) | Some(Tok::R));
+                let right_starts_operand = rp || {
+                    let mut probe = vec![];
+                    to_tokens(r, dec, thou, &mut probe);
+                    match probe.first() {
+                        Some(Tok::Lit(_, _, l)) => l.sign == 0,
+                        Some(Tok::L) => true,
+                        _ => false,
+                    }
+                };
+                omit = left_ends_operand && right_starts_operand;
             }
             if !omit {
                 out.push(Tok::Op(op.ch()));
@@ -790,9 +799,9 @@ pub fn regression_table() -> Vec<Case> {
 }
 
 pub fn run(ctx: &Ctx) {
-    ctx.rule("generated: expression trees over decimal literals (integers, fractions, attached signs, k..Y suffixes, thousands groups), + - * /, redundant and required parentheses, detached sign prefixes on literals and groups, juxtaposed literals, 0-3 blanks per gap, 4 separator conventions, optionally as the right-hand side of an assignment, under the language tags en and tr; plus trees wrapped 10-160 levels deep in parentheses (redundant, or `(inner op literal)` layers, with group signs); oracle = reference evaluator over the tree (f64, x/0=0), tolerance 1e-9 relative; non-trivial = DISTINGUISHING: the reference value differs from at least one wrong reading of the same tokens (no precedence / right-associative / parentheses ignored); distinct = distinct rendered line + configuration");
+    ctx.rule("generated: expression trees over decimal literals (integers, fractions, attached signs, k..Y suffixes, thousands groups), + - * /, redundant and required parentheses, detached sign prefixes on literals and groups, juxtaposed operands (literals and parenthesised groups: 2 3, 2 (3) 4, (1 + 2) 3), 0-3 blanks per gap, 4 separator conventions, optionally as the right-hand side of an assignment, under the language tags en and tr; plus trees wrapped 10-160 levels deep in parentheses (redundant, or `(inner op literal)` layers, with group signs); oracle = reference evaluator over the tree (f64, x/0=0), tolerance 1e-9 relative; non-trivial = DISTINGUISHING: the reference value differs from at least one wrong reading of the same tokens (no precedence / right-associative / parentheses ignored); distinct = distinct rendered line + configuration");
     ctx.assume("a quotient chain NUM / NUM / NUM whose operands read as a valid day/month/year is a date by design and is excluded (counted under excluded)");
-    ctx.assume("juxtaposition is generated between two literals only; a sign prefix applies to a literal (possibly carrying its own attached sign) or to a parenthesised group");
+    ctx.assume("juxtaposition is generated where the left side ends in a literal or ')' and the right side starts with an unsigned literal or '('; a sign prefix applies to a literal (possibly carrying its own attached sign) or to a parenthesised group");
     ctx.run_table(&Arith, "regressions", regression_table(), false);
     ctx.run_table(&Arith, "small-trees", small_table(), true);
     let (d, s) = match ctx.tier {
